@@ -118,6 +118,13 @@ def gen_value(rng, spec, bad=False, depth=0):
                 d[_hashable(gen_value(rng, spec[1], kb, depth + 1), i)] = gen_value(rng, spec[2], vb, depth + 1)
             except TypeError:
                 pass
+        if d and rng.random() < 0.3:
+            # a second raw key that converts to the same key as an earlier one ("1" after 1): the later entry is good or offending
+            for kk in list(d):
+                twin = _twin_key(kk)
+                if twin is not None and twin not in d:
+                    d[twin] = gen_value(rng, spec[2], rng.random() < 0.6, depth + 1)
+                    break
         return d
     if k == "tuple2":
         n = rng.choice([2, 2, 2, 2, 1, 3])
@@ -135,6 +142,26 @@ def gen_value(rng, spec, bad=False, depth=0):
     except TypeError:
         pass
     return {"list": list, "tuple": tuple, "deque": deque, "set": list}[shape](items)
+
+
+def _twin_key(k):
+    """another raw spelling that the key types used here convert to the same key"""
+    if isinstance(k, bool):
+        return None
+    if isinstance(k, int):
+        return str(k)
+    if isinstance(k, float) and k == int(k):
+        return int(k)
+    if isinstance(k, str) and k.lstrip("-").isdigit():
+        return int(k)
+    if isinstance(k, dt.date) and not isinstance(k, dt.datetime):
+        return k.isoformat()
+    if isinstance(k, bytes):
+        try:
+            return k.decode()
+        except Exception:
+            return None
+    return None
 
 
 def _hashable(v, i):
